@@ -89,7 +89,7 @@ def _rotation(rng):
     return quat_to_mat(rng.normal(size=4)), "general"
 
 
-def run_case(spec, ctx):
+def _run_case(spec, ctx):
     env.import_cardillo()
     import cardillo.math.rotations as R
     from vlib import mpref
@@ -268,3 +268,19 @@ def finalize(agg):
         if agg["classes"].get(f"spurrier:branch{i}", 0) == 0:
             out.append(f"Spurrier branch {i} never taken")
     return out
+
+
+
+def run_case(spec, ctx):
+    """an exception raised inside cardillo for an input of the stated domain refutes the property for that input (the map does
+    not yield a rotation / the routine does not return a derivative); harness errors still propagate"""
+    try:
+        return _run_case(spec, ctx)
+    except Exception as e:
+        from vlib.rodgen import raised_in_cardillo
+        inside, where = raised_in_cardillo(e)
+        if not inside:
+            raise
+        ctx.mon("exception")
+        ctx.violation(where.split(" ")[-1], "raises for an input inside the stated domain", {"kind": spec.get("kind"), "raised_at": where, "error": f"{type(e).__name__}: {e}"[:300]})
+        ctx.sig([spec, "raised"], nontrivial=True)
